@@ -6,6 +6,7 @@ from __future__ import annotations
 
 from ..core import Rule
 from . import engine_rules as E
+from .memo_rules import memo_keys_rule
 
 EXPLANATION = (
     'Static rules over fpy2/ops.py, fpy2/number/engine and fpy2/number/gmputils.py for the arithmetic operations '
@@ -20,8 +21,11 @@ EXPLANATION = (
     'fixes, returns the 2-digit probe only for specials or e <= n, and bumps an even significand iff inexact (F1); '
     'each callable handed to the wrapper is a single MPFR operation (F2); RealEngine ceil/floor/trunc/roundint use '
     'RTP/RTN/RTZ/RNA at n=-1, sub/fma are compositions of exact ops (T1); NaN/inf/zero arms of RealEngine '
-    'add/mul/div equal the IEEE 754 tables (T2). NOT decided: MPFR itself, _mod quotient arithmetic, signs of exact '
-    'zero results, invalid/divzero flag inference.'
+    'add/mul/div equal the IEEE 754 tables (T2); the two helper-answered MPFR methods: _mod takes math.floor of one '
+    'round-to-odd division kept down to the units digit (n <= -1, no precision cap) whatever the target context and '
+    'returns x - q*y in exact arithmetic, with the special-operand table of Python\'s %; _fdim is NaN / one '
+    'subtraction at the target (prec, n) / +0 (G1); no memo table in the engines is keyed by less than it was computed '
+    'from (M1). NOT decided: MPFR itself, signs of exact zero results, invalid/divzero flag inference.'
 )
 ASSUMPTIONS = [
     'MPFR (gmpy2) computes each primitive correctly under RoundToZero and reports a truthful ternary value',
@@ -37,6 +41,8 @@ RULES = [
     Rule('C02.F1', 'round-to-odd wrapper: RoundToZero, prec+2 digits, ternary of the fixed value, sticky fold', E.f1_round_to_odd, 12, 'F'),
     Rule('C02.F2', 'every callable handed to the wrapper is a single MPFR operation', E.f2_single_operation('C02'), 15, 'F'),
     Rule('C02.S3', 'local MPFR wrappers compute the operation they are named after (neg, abs, pow, lgamma = first component of gmp.lgamma)', E.s3_wrapper_primitives, 4, 'S,T'),
+    Rule('C02.G1', 'helper-answered MPFR methods: _mod takes floor of a quotient kept to the units digit and subtracts exactly; _fdim is one subtraction at (prec, n); special-operand tables', E.g1_helper_methods, 14, 'G,T'),
+    Rule('C02.M1', 'a remembered engine result is keyed by every input it was computed from', memo_keys_rule(('fpy2/number/engine/', 'fpy2/number/gmputils.py', 'fpy2/ops.py'), 'operands, precision and digit position'), 1, 'M'),
     Rule('C02.T1', 'RealEngine: ceil/floor/trunc/roundint = RTP/RTN/RTZ/RNA at n=-1; sub, fma composed of exact ops', E.t1_real_engine, 9, 'T'),
     Rule('C02.T2', 'RealEngine add/mul/div special-value arms equal the IEEE 754 tables', E.t2_real_specials, 48, 'T'),
 ]
@@ -46,6 +52,15 @@ from ..selftest import Mutant  # noqa: E402
 OPS, GMP, REAL, GU = E.OPS, E.GMP, E.REAL, E.GMPUTILS
 
 MUTANTS = [
+    Mutant('mod-quotient-at-target-precision', GMP, "            q = math.floor(_mpfr_eval(gmp.div, x, y, n=-1))",
+           "            prec, n = ctx.round_params()\n            if prec is None:\n                n = min(n, -1)\n            q = math.floor(_mpfr_eval(gmp.div, x, y, prec=prec, n=n))", 'C02.G1',
+           'seeded change C02c: mod(2**60 + 5, 7) under FP64 is 13'),
+    Mutant('mod-quotient-to-the-twos-digit', GMP, "            q = math.floor(_mpfr_eval(gmp.div, x, y, n=-1))", "            q = math.floor(_mpfr_eval(gmp.div, x, y, n=0))", 'C02.G1'),
+    Mutant('mod-quotient-finer', GMP, "            q = math.floor(_mpfr_eval(gmp.div, x, y, n=-1))", "            q = math.floor(_mpfr_eval(gmp.div, x, y, n=-4))", 'C02.G1',
+           'more fraction digits than needed: same floor', expect='silent'),
+    Mutant('mod-remainder-operands-swapped', GMP, "            return x - q * y", "            return y - q * x", 'C02.G1'),
+    Mutant('mod-zero-takes-sign-of-x', GMP, "            # if x is zero, +/-0 is returned\n            return Float(x=x, s=y.s)", "            # if x is zero, +/-0 is returned\n            return Float(x=x, s=x.s)", 'C02.G1'),
+    Mutant('fdim-subtracts-the-other-way', GMP, "            return _mpfr_eval(gmp.sub, x, y, prec=prec, n=n)\n        else:\n            # otherwise, returns +0", "            return _mpfr_eval(gmp.sub, y, x, prec=prec, n=n)\n        else:\n            # otherwise, returns +0", 'C02.G1'),
     Mutant('sub-operands-swapped', OPS, 'r = engine.sub(xr, yr, ctx)', 'r = engine.sub(yr, xr, ctx)', 'C02.S1'),
     Mutant('fma-dispatches-to-mul', OPS, 'r = engine.fma(xr, yr, zr, ctx)', 'r = engine.mul(xr, yr, ctx)', 'C02.S1'),
     Mutant('double-rounding-in-div', OPS, 'r = engine.div(xr, yr, ctx)\n        if r is not None:\n            return _normalize(r, ctx, (xr, yr))',
